@@ -6,7 +6,7 @@ XMLNS_NS = 'http://www.w3.org/2000/xmlns/'
 
 
 class Step:
-    __slots__ = ('events', 'errs', 'eh', 'exc', 'hk', 'status', 'nW', 'nE', 'nF', 'errcount', 'res', 'srv', 'psteps', 'raw')
+    __slots__ = ('events', 'errs', 'eh', 'exc', 'hk', 'status', 'nW', 'nE', 'nF', 'errcount', 'res', 'srv', 'psteps', 'raw', 'adopt_index')
 
     def __init__(self):
         self.events = []
@@ -18,6 +18,7 @@ class Step:
         self.nW = self.nE = self.nF = self.errcount = 0
         self.res = []
         self.srv = []
+        self.adopt_index = None
         self.psteps = None
         self.raw = []
 
@@ -83,6 +84,8 @@ def parse_step(lines):
             pass        # driver-side note about how a relative id was joined before serving it
         elif t == 'PSTEPS':
             st.psteps = int(f[1])
+        elif t == 'ADOPT':
+            st.adopt_index = int(f[1])      # the document of this step was adopted as the driver's adopted[f[1]]
         else:
             ev.append(('?', l))
     return st
